@@ -26,7 +26,7 @@ def parser_summary(w, fn):
         if len(p) == 1 and p[0][0] == "L":
             tk = b.locals[p[0][1]]["tk"]
             ty = b.locals[p[0][1]]["ty"]
-            return (tk == "bool" or ty.startswith("std::option::Option<std::string::String")) and p[0][1] in b.names()
+            return (tk == "bool" or C.tyn(ty).startswith("S::option::Option<S::string::String")) and p[0][1] in b.names()
         return False
     H0 = pre[0]
     env0 = {p: v for p, v in H0.env.items() if keep(p) or (len(p) == 1 and p[0][0] == "L")}
@@ -49,7 +49,7 @@ def run(chk, w):
         chk.fn(parser)
         short = parser.split("::")[-1]
         # the char_types parameter: the `&mut Vec<u8>` parameter
-        ct = [i for i in range(1, b.arg_count + 1) if b.locals[i]["ty"] == "&mut std::vec::Vec<u8>"]
+        ct = [i for i in range(1, b.arg_count + 1) if C.tyn(b.locals[i]["ty"]) == "&mut S::vec::Vec<u8>"]
         panics = [o for o in outs if o.kind == "panic" and not str(o.info).startswith("assert:")]
         chk.ob("R05.4", "%s:no-unwrap-panic" % short, not panics,
                "%s can reach `%s` (abstract header states explored: %d): some input makes the parser panic instead of returning an error" % (parser, panics[0].info if panics else "", len(states)),
